@@ -24,6 +24,7 @@ import (
 	"github.com/prometheus/client_golang/prometheus"
 	"kvassverif/internal/cfggen"
 	"kvassverif/internal/core"
+	"kvassverif/internal/e7"
 	"kvassverif/internal/sc"
 
 	kdisc "tkestack.io/kvass/pkg/discovery"
@@ -197,6 +198,20 @@ func (p *persistentDisc) round(groups map[string][]TG) error {
 		return fmt.Errorf("discovery did not publish the update")
 	}
 	return nil
+}
+
+func c02Base(tier string) int {
+	if tier == "thorough" {
+		return 40000
+	}
+	return 3000
+}
+
+func c02RealCases(tier string) int {
+	if tier == "thorough" {
+		return 8
+	}
+	return 2
 }
 
 func runC02(w *core.WorkerCtx, idx int) *core.CaseResult {
@@ -633,18 +648,21 @@ func init() {
 		Rule: "differential against the vendored Prometheus library: case = generated configuration (1-4 jobs; scheme, metrics path, params incl. multi-valued and match[], relabel programs: replace into plain labels / __address__ / __metrics_path__ / __scheme__ / __param_<k> with k inside and outside params, keep/drop, labelmap from meta labels incl. digit-leading names, labeldrop, hashmod) + generated target groups (ports present/absent, IPv6 literals, group vs target labels, __param_/__scheme__/__metrics_path__ from discovery, duplicates, dropped targets); " +
 			"reference = config.Load + scrape.TargetsFromGroup on the original; kvass = real TargetsDiscovery -> random split over 1-3 real sidecars (JSON API) -> generated file -> config.Load -> TargetsFromGroup -> request through the real Proxy.ServeHTTP -> URL observed at JobInfo.Cli; oracle = per job the sets of (final labels, scheme://host/path ? sorted query) are equal; then the configuration is reloaded with edited relabel programs, metrics path and scheme (one job possibly removed) on the SAME discovery and sidecar objects, the groups are re-sent, and the comparison is repeated; the coordinator side is scrape manager + explorer + discovery sharing one ConfigInfo as in cmd/kvass/coordinator.go: after each of the two configurations the explorer probes every active target (stub exporter) and the same groups are re-sent without a reload, then compared again (4 phases); " +
 			"metrics paths (job setting and discovery-provided label) include empty, dot and dot-dot segments and a trailing slash; " +
+			"plus 2/8 cases on the REAL coordinator and sidecar binaries (engine E7): a job with multi-valued params, a non-canonical path and relabel rules that rewrite path, a param and a label per target; after convergence (and after a reload that adds or removes targets) the labels the shard's Prometheus gets from the generated file and the request that arrives at each target are compared with config.Load + TargetsFromGroup on the coordinator's file; " +
 			"non-trivial = the reference has at least one target; distinct = hash of configuration text and groups",
 		Assumptions: []string{
 			"the generator does not emit relabel programs that delete job or instance, params named _hash/_jobName/_scheme, or values needing YAML block scalars",
 			"targets are compared as sets of (public labels, URL): two Prometheus targets equal in both are one; a pair obtained by two different jobs (same labels incl. the job label, same URL) is one target by C15 and must be scraped under at least one of them",
 		},
-		NumCases: func(tier string) int {
-			if tier == "thorough" {
-				return 40000
+		NumCases: func(tier string) int { return c02Base(tier) + c02RealCases(tier) },
+		Run: func(w *core.WorkerCtx, idx int) *core.CaseResult {
+			if base := c02Base(w.Tier); idx >= base {
+				// the real coordinator and sidecar binaries: params with several values, a non-canonical path, relabeling
+				// that rewrites path, a param and a label; compared at the wire with the vendored Prometheus
+				return e7.Run(w, idx-base, "C02")
 			}
-			return 3000
+			return runC02(w, idx)
 		},
-		Run:           runC02,
 		MinNontrivial: 100,
 	})
 }
